@@ -209,7 +209,9 @@ class TLSPeer:
                 self.on_handshake_done()
         if self.auto_close_reply and self.engine.saw_close_notify and not self._replied:
             self._replied = True
-            self.close(notify=True)
+            # auto_close_reply == "drop": hang up without answering the close_notify (legal for a peer; the other side's
+            # reader must then NOT see a clean end-of-stream in standard-compatible mode)
+            self.close(notify=self.auto_close_reply != "drop")
 
     def _flush(self) -> None:
         if self.closed or not self.out_pending:
@@ -339,7 +341,9 @@ class RealTLSPeer:
                 self.on_handshake_done()
         if self.auto_close_reply and self.engine.saw_close_notify and not self._replied:
             self._replied = True
-            self.close(notify=True)
+            # auto_close_reply == "drop": hang up without answering the close_notify (legal for a peer; the other side's
+            # reader must then NOT see a clean end-of-stream in standard-compatible mode)
+            self.close(notify=self.auto_close_reply != "drop")
         self._schedule()
 
     def _schedule(self) -> None:
